@@ -435,6 +435,23 @@ def w_non_ascii_comment():
     return "FAILS secrets in a DSB with a UTF-8 comment line: run ended with %s (%s)" % (st, str(getattr(impl, "last_exc", ""))[:60])
 
 
+def w_ipv6_extension_header_checksum():
+    impl, tlsgen, table, _ = env()
+    from ref import capgen
+    rng = random.Random(2)
+    s = tlsgen.single(rng, table, 0xC02F, "TLS12", collections.Counter(), schedule="records", nrec=3, reclen=20, v6=True)
+    def with_hop_by_hop(fr):
+        eth, ip6 = fr[:14], fr[14:]
+        plen = int.from_bytes(ip6[4:6], "big")
+        return eth + ip6[:4] + (plen + 8).to_bytes(2, "big") + bytes([0]) + ip6[7:40] + bytes([ip6[6], 0, 1, 4, 0, 0, 0, 0]) + ip6[40:]
+    cap = capgen.to_pcapng([dict(p, frame=with_hop_by_hop(p["frame"])) for p in s.packets])
+    st0, out0 = impl.run(cap, s.keylog, [])
+    st, out = impl.run(cap, s.keylog, ["-c"])
+    if (st, out) == (st0, out0) and st == "ok" and len(out) > 100:
+        return "ok -c keeps every (valid) IPv6 packet with a hop-by-hop header: same export as without -c (%d bytes)" % len(out)
+    return "FAILS with -c the export of a capture whose IPv6 packets carry a hop-by-hop header (all checksums valid) shrinks from %d to %d bytes" % (len(out0 or b""), len(out or b""))
+
+
 def w_short_cid_direction():
     impl, *_ = env()
     from ref import readback
@@ -494,6 +511,7 @@ W = {  # name: (property, commit, tag, function, one-line description)
     "tls12-fragmented-certificate": ("C01", "101e670", "handshake-continuation-as-hello", w_tls12_fragmented_certificate, "TLS <= 1.2 Certificate fragmented across records (RFC 5246 6.2.1) with a continuation record starting with 0x01 or 0x02: taken for a ClientHello / ServerHello, session reset, nothing exported"),
     "tls-handshake-header-cut": ("C01", "d053156", "handshake-header-cut", w_tls_handshake_header_cut, "TLS 1.0 Certificate whose 4-byte message header is cut by a record boundary after 2 bytes: the next record started with 0x02 and was taken for a ServerHello, nothing exported"),
     "non-ascii-comment-in-dsb": ("C09", "e751caa", "keylog-non-ascii", w_non_ascii_comment, "a decryption secrets block (strict ASCII decode) or key-log file (locale codec) with non-ASCII bytes in a comment line aborted the run with UnicodeDecodeError"),
+    "ipv6-extension-header-checksum": ("C11", "ef93a67", "ipv6-ext-pseudo-header", w_ipv6_extension_header_checksum, "with -c every IPv6 TCP/UDP packet that carries an extension header was ignored although its checksum is correct (ip.nxt, the first extension header's type, used in the pseudo-header)"),
     "legacy-nanosecond-pcap": ("C12", "7467fb4", "legacy-ns", w_legacy_nano, "legacy pcap with nanosecond magic: TypeError in the writer"),
 }
 
